@@ -93,6 +93,7 @@ const (
 	clsBeacon   = "badbeacon"
 	clsNon      = "nonmember"
 	clsPair     = "correlatedpair"
+	clsFields   = "hashfields"
 )
 
 type sym struct {
@@ -101,9 +102,15 @@ type sym struct {
 	Sender int // member index of the claimed signer, -1 for an outsider
 	Byz    int // member that has to be faulty to send this (-1: nobody — honest message or outsider)
 	Valid  bool
-	Core   bool // member of the core alphabet (one flavour per class) used by the literal passes
-	Mini   bool // member of the reduced alphabet (messages that pass at least one signature verification)
-	Wire   []byte
+	// Optional: the block share IS the member's valid signature over this block's hash (and the
+	// beacon share is valid) but the message is filed under another BlockHash and/or claims another
+	// dataHash.  The statement neither demands nor forbids its admission (the share is not "over
+	// another hash", recovery stays correct either way): the model follows the implementation.
+	Optional bool
+	Pattern  string // equality pattern of the three hash fields (signature detail)
+	Core     bool   // member of the core alphabet (one flavour per class) used by the literal passes
+	Mini     bool   // member of the reduced alphabet (messages that pass at least one signature verification)
+	Wire     []byte
 	// the fields the wire bytes were built from; Direct: the production decoder does not hand
 	// this message over (it rejects / dies on the malformed point — wire codec totality is C09),
 	// so the object round1 would have received is built from the parts with the same
@@ -126,6 +133,7 @@ type env struct {
 	bh     types.BlockHeader
 	pre    types.BlockHeader
 	H, H2  common.Hash
+	H3     common.Hash // a second other hash
 	R, R2  []byte
 	want   [2][]byte            // unique group signature over H / over R
 	valid  [2]map[string][]byte // id hex -> the member's unique valid share (block / beacon)
@@ -228,6 +236,11 @@ func getEnv(n int) *env {
 	other := e.bh
 	other.Castor = detID("castor-other").Serialize() // a competing proposal at the same height
 	e.H, e.H2 = e.bh.Hash, other.GenHash()
+	other.Castor = detID("castor-other-2").Serialize()
+	e.H3 = other.GenHash()
+	if e.H3 == e.H || e.H3 == e.H2 {
+		panic("harness: alphabet hashes collide")
+	}
 	e.R = e.pre.Random
 	e.R2 = groupsig.Sign(detSk("previous-group"), []byte("some other beacon input")).Serialize()
 	if e.H == e.H2 || bytes.Equal(e.R, e.R2) {
@@ -301,6 +314,24 @@ func (e *env) add(s sym) {
 	e.syms = append(e.syms, s)
 }
 
+var hname = [3]string{"b", "K", "K2"}
+
+// hpattern abstracts the concrete other hashes away: b = this block's hash, x / y = other values
+// in order of first appearance (filed, claimed, signed).
+func hpattern(f, d, g int) string {
+	lab := map[int]string{0: "b"}
+	next := []string{"x", "y"}
+	out := make([]string, 3)
+	for i, v := range []int{f, d, g} {
+		if _, ok := lab[v]; !ok {
+			lab[v] = next[0]
+			next = next[1:]
+		}
+		out[i] = lab[v]
+	}
+	return fmt.Sprintf("filed=%s,claimed=%s,signed=%s", out[0], out[1], out[2])
+}
+
 // G1 arithmetic on serialized points (harness side only: builds Byzantine messages whose two
 // shares are wrong in a correlated way; identity is the all-zero encoding bn256 marshals).
 func g1(b []byte) *bn_curve.G1 {
@@ -365,6 +396,22 @@ func (e *env) buildAlphabet() {
 			H, H, sig(sk, H.Bytes()), id, infinity))
 		e.add(w(sym{Name: fmt.Sprintf("badbeacon:empty(%d)", i), Class: clsBeacon, Sender: i, Byz: i},
 			H, H, sig(sk, H.Bytes()), id, nil))
+		// the three hash-valued fields as independent dimensions: filed under (cvm.BlockHash),
+		// claimed (SignInfo.dataHash), actually signed; each this block's hash b or another hash K / K2;
+		// honest beacon share.  (b,b,b) is hon, (b,K,K) otherhash, (b,b,K) sigmismatch above.
+		hv := []common.Hash{H, H2, e.H3}
+		for f := 0; f < 3; f++ {
+			for d := 0; d < 3; d++ {
+				for g := 0; g < 3; g++ {
+					if (f == 0 && d == 0 && g == 0) || (f == 0 && d == 1 && g == 1) || (f == 0 && d == 0 && g == 1) {
+						continue
+					}
+					e.add(w(sym{Name: fmt.Sprintf("fields[filed=%s,claimed=%s,signed=%s](%d)", hname[f], hname[d], hname[g], i),
+						Class: clsFields, Sender: i, Byz: i, Optional: g == 0, Pattern: hpattern(f, d, g)},
+						hv[f], hv[d], sig(sk, hv[g].Bytes()), id, sig(sk, R)))
+				}
+			}
+		}
 		// both shares wrong in a correlated way: neither is valid for what it is filed under, but
 		// sums / linear combinations of the pair are (defeats any check that binds only a combination)
 		s1, s2 := sig(sk, H.Bytes()), sig(sk, R)
@@ -430,23 +477,33 @@ type instance struct {
 	checkedOn  string
 	checkedErr error
 	// phased histories
-	delivered   []sym        // every message handed to this instance so far (to name the culprit of an admitted entry)
-	flexM       bool         // more than k valid shares were replayed in one batch (map order): any k of them may be held
+	delivered []sym // every message handed to this instance so far (to name the culprit of an admitted entry)
+	// flex comparison (a batch replayed in map order and/or optional messages): the held set may be
+	// any S with S within A (valid entries only), |S| >= min(k, |flexMust|), and flexMust within S while |S| < k
+	flexM       bool
+	flexMust    map[int]bool
 	flexPresent map[int]bool // the members whose block share is held, observed under flexM
 }
 
 // culprit names the class of the delivered message an inadmissible share-set entry came from.
-func (in *instance) culprit(sh logical.VerifRoundShare, which int, cur sym) string {
+func (in *instance) culprit(sh logical.VerifRoundShare, which int, cur sym) sym {
 	for _, d := range in.delivered {
 		b := d.dataSign
 		if which == 1 {
 			b = d.rnd
 		}
 		if bytes.Equal(b, sh.Sig) && groupsig.DeserializeID(d.signer).GetHexString() == sh.Id {
-			return d.Class
+			return d
 		}
 	}
-	return cur.Class
+	return cur
+}
+
+func admitSigFor(d sym) string {
+	if d.Class == clsFields {
+		return "C15:admits-share-not-over-block-hash:" + d.Pattern
+	}
+	return admitSig(d.Class)
 }
 
 func (e *env) freshRound0() *instance {
@@ -542,15 +599,28 @@ func (in *instance) compare(part string, step int, s sym, M, A map[int]bool) *fi
 			} else if !A[idx] {
 				why = fmt.Sprintf("belongs to member %d who has not sent a valid message", idx)
 			}
-			return &finding{Sig: admitSig(in.culprit(sh, w, s)), Part: part, Step: step, Admits: true,
+			return &finding{Sig: admitSigFor(in.culprit(sh, w, s)), Part: part, Step: step, Admits: true,
 				Msg: fmt.Sprintf("after message %d (%s) the %s share set holds an entry %s=%x… that %s; model set = members %v",
 					step+1, s.Name, names[w], sh.Id, sh.Sig[:min(8, len(sh.Sig))], why, setNames(M))}
 		}
 		if in.flexM {
-			if len(present) < e.k {
+			if need := min(e.k, len(in.flexMust)); len(present) < need {
 				return &finding{Sig: "C15:drops-valid-share", Part: part, Step: step,
-					Msg: fmt.Sprintf("after %s the %s share set holds %d valid shares although more than k=%d valid shares were replayed; implementation set = [%s]",
-						s.Name, names[w], len(present), e.k, sharesStr(sets[w]))}
+					Msg: fmt.Sprintf("after %s the %s share set holds %d valid shares, at least %d expected (members with a valid message: %v, k=%d); implementation set = [%s]",
+						s.Name, names[w], len(present), need, setNames(in.flexMust), e.k, sharesStr(sets[w]))}
+			}
+			if len(present) < e.k {
+				for idx := range in.flexMust {
+					if !present[idx] {
+						sig := "C15:drops-valid-share"
+						if s.Valid && s.Sender == idx {
+							sig = "C15:rejects-valid-share"
+						}
+						return &finding{Sig: sig, Part: part, Step: step,
+							Msg: fmt.Sprintf("after %s the %s share set lacks the valid share of member %d and holds fewer than k=%d shares; implementation set = [%s]",
+								s.Name, names[w], idx, e.k, sharesStr(sets[w]))}
+					}
+				}
 			}
 			if w == 0 {
 				in.flexPresent = present
@@ -621,26 +691,7 @@ func (e *env) exec(seq []int, party bool) result {
 	for step, si := range seq {
 		s := e.syms[si]
 		// model
-		switch {
-		case !s.Valid:
-			res.outcomes = append(res.outcomes, "reject:"+s.Class)
-			res.refused++
-		case A[s.Sender]:
-			res.outcomes = append(res.outcomes, "ignore:duplicate")
-			res.refused++
-		case len(M) >= e.k:
-			res.outcomes = append(res.outcomes, "ignore:after-recovery")
-			A[s.Sender] = true
-			res.refused++
-		default:
-			M[s.Sender], A[s.Sender] = true, true
-			res.admitted++
-			if len(M) == e.k {
-				res.outcomes = append(res.outcomes, "admit+recover")
-			} else {
-				res.outcomes = append(res.outcomes, "admit")
-			}
-		}
+		pending := e.modelStep(s, M, A, &res)
 		// implementation, round level
 		var uerr error
 		msg := s.message()
@@ -653,6 +704,11 @@ func (e *env) exec(seq []int, party bool) result {
 			res.f = &finding{Sig: "C15:update-error", Part: "round", Step: step,
 				Msg: fmt.Sprintf("round1.Update returned an error on message %d (%s): %v", step+1, s.Name, uerr)}
 			return res
+		}
+		if pending {
+			if res.f = e.resolveOptional(ra, "round", step, s, M, A, &res); res.f != nil {
+				return res
+			}
 		}
 		if res.f = ra.compare("round", step, s, M, A); res.f != nil {
 			return res
@@ -779,14 +835,14 @@ func (e *env) account(c *fw.Ctx, seq []int, res result) {
 // ---------------------------------------------------------------------------------
 // part A: BFS over histories, full alphabet restricted to one Byzantine set
 
-func (e *env) bfs(c *fw.Ctx, byz []int, depth int) {
+func (e *env) bfs(c *fw.Ctx, byz []int, depth int, coreOnly bool) {
 	isB := map[int]bool{}
 	for _, b := range byz {
 		isB[b] = true
 	}
 	var alpha []int
 	for i, s := range e.syms {
-		if s.Byz < 0 || isB[s.Byz] {
+		if (s.Byz < 0 || isB[s.Byz]) && (!coreOnly || s.Core) {
 			alpha = append(alpha, i)
 		}
 	}
@@ -898,24 +954,26 @@ type litPass struct {
 
 type plan struct {
 	n                int
-	bfsByz, bfsDepth int // BFS: one task per set of bfsByz possibly-Byzantine members (covers fewer), depth n+2
+	bfsByz, bfsDepth int  // BFS: one task per set of bfsByz possibly-Byzantine members (covers fewer), depth n+2
+	bfsCore          bool // BFS over the core alphabet only (one flavour per message class)
 	lit              []litPass
 	// phased histories (parked in round0 / transition / live): one Byzantine member at a time,
 	// live BFS depth phLive (-1: no phased pass), phParty: party-level instance in lock-step
 	phLive  int
 	phParty bool
+	phCore  bool // live alphabet of the phased pass: core alphabet (else honest messages + the parked extra)
 }
 
 func plans(thorough bool) []plan {
 	if !thorough {
 		return []plan{
 			{n: 3, bfsByz: 1, bfsDepth: 5, lit: []litPass{{false, 3, -1, 1}}, phLive: 1},
-			{n: 4, bfsByz: 1, bfsDepth: 6, phLive: -1},
+			{n: 4, bfsByz: 1, bfsDepth: 6, bfsCore: true, phLive: -1},
 		}
 	}
 	return []plan{
-		{n: 3, bfsByz: 2, bfsDepth: 5, lit: []litPass{{false, 4, -1, 1}, {false, 3, 1, 2}, {true, 5, -1, 1}}, phLive: 2, phParty: true},
-		{n: 4, bfsByz: 2, bfsDepth: 6, phLive: 1},
+		{n: 3, bfsByz: 2, bfsDepth: 5, lit: []litPass{{false, 4, -1, 1}, {false, 3, 1, 2}, {true, 5, -1, 1}}, phLive: 2, phParty: true, phCore: true},
+		{n: 4, bfsByz: 2, bfsDepth: 6, phLive: 1, phCore: true},
 		{n: 5, bfsByz: 2, bfsDepth: 7, lit: []litPass{{false, 3, -1, 1}, {true, 4, -1, 1}}, phLive: 0},
 	}
 }
@@ -945,7 +1003,7 @@ func run(c *fw.Ctx) {
 		for _, b := range subsets(p.n, p.bfsByz) {
 			idx++
 			if c.Mine(idx) {
-				e.bfs(c, b, p.bfsDepth)
+				e.bfs(c, b, p.bfsDepth, p.bfsCore)
 			}
 		}
 	}
@@ -956,7 +1014,7 @@ func run(c *fw.Ctx) {
 		}
 		e := getEnv(p.n)
 		for _, b := range subsets(p.n, 1) {
-			e.phased(c, &idx, b, p.phLive, p.phParty)
+			e.phased(c, &idx, b, p.phLive, p.phParty, p.phCore)
 		}
 	}
 	// phase 2: literal enumeration
